@@ -38,14 +38,19 @@ Match(y, e) ==
   /\ (y.gate = "shut") => (e.wn = 0 /\ Len(Apis(e.dn)) = 1 /\ Apis(e.dn)[1][3])
   \* a command issued from the stop callback: refused likewise; the callback itself may have written the
   \* frames of the disconnect, but never the command
-  /\ (y.gate = "shut_in_stop") => (Len(Apis(e.dn)) = 1 /\ Apis(e.dn)[1][3] /\ \A k \in 1..Len(e.w) : e.w[k] # "SwitchCommandRequest")
+  /\ (y.gate = "shut_in_stop") => (Len(Apis(e.dn)) = Len(Apis(y.dn)) /\ (\A k \in 1..Len(Apis(e.dn)) : Apis(e.dn)[k][3])
+                                   /\ \A k \in 1..Len(e.w) : e.w[k] # "SwitchCommandRequest")
+  \* a call whose write failed: a connection error in this very callback
+  /\ (y.gate = "failed") => (Len(Apis(e.dn)) = 1 /\ Apis(e.dn)[1][3])
 
 Diff(y, e) ==
   (IF y.ptr # e.pi THEN {"pi"} ELSE {}) \cup (IF y.st # e.sts THEN {"sts"} ELSE {}) \cup
   (IF ~SameOps(Mgmt(y.dn), Mgmt(e.dn)) THEN {"dn"} ELSE {}) \cup
   (IF y.gate = "shut" /\ ~(e.wn = 0 /\ Len(Apis(e.dn)) = 1 /\ Apis(e.dn)[1][3]) THEN {"gate"} ELSE {}) \cup
-  (IF y.gate = "shut_in_stop" /\ ~(Len(Apis(e.dn)) = 1 /\ Apis(e.dn)[1][3] /\ \A k \in 1..Len(e.w) : e.w[k] # "SwitchCommandRequest")
-   THEN {"gate"} ELSE {})
+  (IF y.gate = "shut_in_stop" /\ ~(Len(Apis(e.dn)) = Len(Apis(y.dn)) /\ (\A k \in 1..Len(Apis(e.dn)) : Apis(e.dn)[k][3])
+                                  /\ \A k \in 1..Len(e.w) : e.w[k] # "SwitchCommandRequest")
+   THEN {"gate"} ELSE {}) \cup
+  (IF y.gate = "failed" /\ ~(Len(Apis(e.dn)) = 1 /\ Apis(e.dn)[1][3]) THEN {"gate"} ELSE {})
 
 Internal(x) ==
   UNION {PhaseEnd(x, j, "ok") \cup PhaseEnd(x, j, "err") : j \in 1..Len(x.phs)} \cup Progress(x) \cup Noop(x)
@@ -59,6 +64,8 @@ Apply(x, e) ==
     [] e.c = "UserApi"        -> UserApi(x)
     \* the peer closed the socket of connection i (0: a transport whose connection had let go of it already):
     \* a connection that is alive does not survive that
+    [] e.c = "EnvWriteFail"   -> EnvWriteFail(x, e.a.i)
+    [] e.c = "EnvReset"       -> EnvReset(x, e.a.i)
     [] e.c = "EnvLoss"        -> IF e.a.i = 0 \/ x.st[e.a.i] = "closed" THEN Internal(x) ELSE EnvClose(x, e.a.i)
     [] OTHER                  -> Internal(x)          \* environment events, library callbacks, idle points
 
